@@ -429,7 +429,7 @@ func (s *monitorSvc) MetricNames(ctx context.Context, in struct{}, out *[]string
 }
 
 func (s *ipfsSvc) BlockPut(ctx context.Context, in *api.NodeWithMeta, out *struct{}) error {
-	return s.r.rec("IPFSConnector", "BlockPut", nil, false)
+	return s.r.rec("IPFSConnector", "BlockPut", in.Cid, false)
 }
 
 func newRPC(r *recorder) (*rpc.Client, error) {
